@@ -471,13 +471,27 @@ Qed.
 (* ---------- the fill phase as a whole ---------- *)
 Definition part_at (parts : list (list (list N))) : lview := fun q => nth (N.to_nat q) parts [].
 
+Lemma trimmed_ok r (olds : list (list (list N))) : Forall (fun o => NoDup o) olds ->
+  Forall (fun o => length o <= r /\ NoDup o) (map (firstn r) olds).
+Proof.
+  intros H. apply Forall_map. eapply Forall_impl; [|exact H]. intros o Ho. split.
+  - apply firstn_le_length.
+  - clear H. revert r. induction Ho as [|x l Hx _ IH]; intros r; destruct r; simpl; try constructor.
+    + intros Hin. apply Hx. revert Hin. clear. revert r. induction l as [|y l IH]; intros r H; destruct r; simpl in H; try contradiction.
+      destruct H as [->|H]; [left; reflexivity|right; eapply IH; exact H].
+    + apply IH.
+Qed.
+
 Theorem v2_fill_phase_ok h p r olds ring :
   NoDup ring -> ~ In [] ring -> r <= length ring ->
-  length olds <= p -> Forall (fun o => length o <= r /\ NoDup o) olds ->
+  length olds <= p -> Forall (fun o => NoDup o) olds ->
   exists ls parts, v2_fill_phase h p r olds ring = Ok (ls, parts) /\ names ls = ring /\
     length parts = p /\ Forall (list_ok ring r) parts /\ cons ls (part_at parts).
 Proof.
-  intros Hnd Hne Hr Hlo Hok. unfold v2_fill_phase.
+  intros Hnd Hne Hr Hlo0 Hok0. unfold v2_fill_phase. cbv zeta.
+  pose proof (trimmed_ok r olds Hok0) as Hok.
+  assert (Hlo : length (map (firstn r) olds) <= p) by (rewrite map_length; exact Hlo0).
+  generalize dependent (map (firstn r) olds). clear olds Hlo0 Hok0. intros olds Hok Hlo.
   set (n := N.of_nat (length ring)).
   set (ls0 := add_olds 0 olds (init_loads h n 0 ring)).
   assert (Hn0 : names ls0 = ring) by (subst ls0; rewrite names_add_olds; apply names_init).
@@ -750,7 +764,7 @@ End Move.
 (* ---------- V2 as a whole ---------- *)
 Theorem fill_v2_valid h p r olds ring :
   NoDup ring -> ~ In [] ring -> ring <> [] -> r <= length ring ->
-  length olds <= p -> Forall (fun o => length o <= r /\ NoDup o) olds ->
+  length olds <= p -> Forall (fun o => NoDup o) olds ->
   exists l, fill_v2 h p r olds ring = Ok l /\ valid_layout ring p r l.
 Proof.
   intros Hnd Hne Hrn Hr Hlo Hok. unfold fill_v2.
@@ -762,12 +776,14 @@ Proof.
 Qed.
 
 (* ---------- V2 through the entry point ---------- *)
-Definition olds_ok (p r : nat) (olds : list (list (list N))) : Prop :=
-  length olds <= p /\ Forall (fun o => length o <= r /\ NoDup o) olds.
+(* previous layouts the driver can be handed: at most p lists, each duplicate-free (any length: lists longer
+   than r occur while a node is being moved or after the replica count was lowered) *)
+Definition olds_ok (p : nat) (olds : list (list (list N))) : Prop :=
+  length olds <= p /\ Forall (fun o => NoDup o) olds.
 
 Theorem rebalance_v2_valid ver ns p r olds nodes :
   is_v2 ver = true -> NoDup (map fst nodes) -> ~ In [] (map fst nodes) -> nodes <> [] ->
-  (r <= N.of_nat (length nodes))%N -> olds_ok (N.to_nat p) (N.to_nat r) olds ->
+  (r <= N.of_nat (length nodes))%N -> olds_ok (N.to_nat p) olds ->
   exists l, rebalance ver ns p r olds nodes = Ok l /\ valid_layout (map fst nodes) (N.to_nat p) (N.to_nat r) l.
 Proof.
   intros Hv Hnd Hne Hnn Hr [Hlo Hok]. rewrite rebalance_unfold by assumption. cbv zeta. rewrite Hv.
@@ -783,14 +799,14 @@ Qed.
 (* both algorithms: a layout is produced and it is valid *)
 Theorem rebalance_valid ver ns p r olds nodes :
   NoDup (map fst nodes) -> ~ In [] (map fst nodes) -> nodes <> [] ->
-  (r <= N.of_nat (length nodes))%N -> olds_ok (N.to_nat p) (N.to_nat r) olds ->
+  (r <= N.of_nat (length nodes))%N -> olds_ok (N.to_nat p) olds ->
   exists l, rebalance ver ns p r olds nodes = Ok l /\ valid_layout (map fst nodes) (N.to_nat p) (N.to_nat r) l.
 Proof.
   intros. destruct (is_v2 ver) eqn:Ev; [apply rebalance_v2_valid|apply rebalance_v1_valid]; assumption.
 Qed.
 
 Theorem rebalance_refuse_iff' ver ns p r olds nodes :
-  NoDup (map fst nodes) -> ~ In [] (map fst nodes) -> nodes <> [] -> olds_ok (N.to_nat p) (N.to_nat r) olds ->
+  NoDup (map fst nodes) -> ~ In [] (map fst nodes) -> nodes <> [] -> olds_ok (N.to_nat p) olds ->
   (rebalance ver ns p r olds nodes = Refuse <-> (N.of_nat (length nodes) < r)%N).
 Proof.
   intros Hnd Hne Hnn Hok. split.
@@ -811,12 +827,12 @@ Inductive reachable (ver ns : bytes) (p r : N) : list (list (list N)) -> Prop :=
     reachable ver ns p r olds -> good_nodes nodes ->
     rebalance ver ns p r olds nodes = Ok l -> reachable ver ns p r l.
 
-Lemma valid_layout_olds_ok live p r l : valid_layout live p r l -> olds_ok p r l.
+Lemma valid_layout_olds_ok live p r l : valid_layout live p r l -> olds_ok p l.
 Proof.
-  intros [HL HF]. split; [lia|]. eapply Forall_impl; [|exact HF]. intros nl [A [B _]]. split; [lia|exact B].
+  intros [HL HF]. split; [lia|]. eapply Forall_impl; [|exact HF]. intros nl [A [B _]]. exact B.
 Qed.
 
-Theorem reachable_olds_ok ver ns p r olds : reachable ver ns p r olds -> olds_ok (N.to_nat p) (N.to_nat r) olds.
+Theorem reachable_olds_ok ver ns p r olds : reachable ver ns p r olds -> olds_ok (N.to_nat p) olds.
 Proof.
   induction 1 as [|olds nodes l _ IH [Hnd [Hne Hnn]] E].
   - split; [simpl; lia|constructor].
@@ -830,5 +846,5 @@ Theorem rebalance_chain_valid ver ns p r olds nodes :
   reachable ver ns p r olds -> good_nodes nodes -> (r <= N.of_nat (length nodes))%N ->
   exists l, rebalance ver ns p r olds nodes = Ok l /\ valid_layout (map fst nodes) (N.to_nat p) (N.to_nat r) l.
 Proof.
-  intros HR [Hnd [Hne Hnn]] L. apply rebalance_valid; try assumption. apply reachable_olds_ok with (ver := ver) (ns := ns). exact HR.
+  intros HR [Hnd [Hne Hnn]] L. apply rebalance_valid; try assumption. apply reachable_olds_ok with (ver := ver) (ns := ns) (r := r). exact HR.
 Qed.
